@@ -69,7 +69,11 @@ func eRecordHead(r *simrt.Rand, conn, n int) string {
 }
 
 func eContinuation(r *simrt.Rand) string {
-	switch r.Intn(6) {
+	switch r.Intn(8) {
+	case 6, 7:
+		// shorter than a record start can be, but beginning exactly like one: whether it passes the start test must not depend
+		// on what happens to follow it in the buffer
+		return []string{"<13>1 see above", "<3>1 x", "<165>1 2024-01-01T00:00:00Z h", "<0>1 ", "<191>1 -"}[r.Intn(5)]
 	case 0:
 		return ""
 	case 1:
@@ -515,7 +519,8 @@ func (r *eRun) evaluate(out *Outcome) {
 		var framed []string
 		for _, m := range sk.msgs {
 			out.Obligations++
-			if syslogprotocol.TestRecordStart([]byte(m)) {
+			// (the start test looks at the length too: it is a property of the first LINE of a message, not of the message)
+			if syslogprotocol.TestRecordStart([]byte(strings.SplitN(m, "\n", 2)[0])) {
 				framed = append(framed, m)
 				continue
 			}
